@@ -218,6 +218,35 @@ class Clock:
         return self.now
 
 
+def cert_principal_rule(pi: int, ctype: int, want_type: int, wi: int, now: int) -> bool:
+    """A decoded certificate validates for a wanted principal iff its type is
+    the wanted type, now lies in [valid_after, valid_before) and the wanted
+    principal is listed (an empty principal list means any; None means "do not
+    check") - the empty string is a name like any other, not a wildcard."""
+    ctype = pick([1, 2], ctype)
+    pl = pick(PLISTS, pi)
+    wanted = pick([None, '', 'alice', 'carol'], wi)
+    body, blob = _cert_blob(ctype, b'key-id', pl, 1, 3, b'', b'')
+    try:
+        cert = _construct(blob)
+    except Exception:
+        return False
+    saved = PK.time
+    PK.time = Clock(now)
+    try:
+        try:
+            cert.validate(want_type, wanted)
+            ok = True
+        except ValueError:
+            ok = False
+    finally:
+        PK.time = saved
+    names = [p.decode() for p in pl]
+    ref = (want_type == PK.CERT_TYPE_ANY or want_type == ctype) and 1 <= now < 3 and \
+        (wanted is None or not names or wanted in names)
+    return ok == ref
+
+
 def _sshsig_blob(pub, ns, hash_name, sigblob, magic=b'SSHSIG', version=1, reserved=b''):
     return magic + UInt32(version) + String(pub) + String(ns) + String(reserved) + String(hash_name) + String(sigblob)
 
@@ -398,6 +427,9 @@ OBLIGATIONS = [
     Ob('cert_fields', cert_fields, sym=dict(pi=R(0, 5), ctype=R(0, 1), after=R(0, 3), before=R(0, 3)), timeout=150,
        functions=[PK.SSHOpenSSHCertificate.construct],
        bounds='6 principal lists incl. empty-string principals, both types, window values 0..3'),
+    Ob('cert_principal_rule', cert_principal_rule, sym=dict(pi=R(0, 5), ctype=R(0, 1), want_type=R(0, 2), wi=R(0, 3), now=R(0, 3)), timeout=200,
+       functions=[PK.SSHOpenSSHCertificate.validate, PK.SSHOpenSSHCertificate.construct],
+       bounds='6 principal lists (incl. empty-string entries) x certificate type x wanted type (any/user/host) x wanted principal {None, "", listed, unlisted} x clock 0..3 against window [1,3)'),
     Ob('cert_options', cert_options, sym=dict(ctype=R(0, 1), crit_unknown=B, ext_unknown=B, di=R(0, 4), known_after=B), timeout=150,
        functions=[PK.SSHOpenSSHCertificate._decode_options, PK.SSHOpenSSHCertificate.construct],
        bounds='unknown critical option present or not; unknown extension with 5 kinds of data (empty, packed empty, a known extension name raw or packed, nested pair) followed or not by a known extension'),
